@@ -238,6 +238,13 @@ func replayFrag(fsch *fragSched, version int) string {
 				in = line(their, 2, 3, "x")
 				rcv = our
 			}
+		case "otherformat":
+			// the first / the completing piece of M, in the other version's header format
+			if version == 3 {
+				in = []byte(fmt.Sprintf("?OTR,%05d,%05d,%s,", s.K, 3, piece("M", s.K)))
+			} else {
+				in = []byte(fmt.Sprintf("?OTR|%08x|%08x,%05d,%05d,%s,", their, our, s.K, 3, piece("M", s.K)))
+			}
 		case "stranger":
 			in = line(foreign, 2, 3, "x")
 		case "garbage":
